@@ -265,6 +265,9 @@ func (db *RockDB) incr(ts int64, key []byte, delta int64) (int64, error) {
 			return 0, err
 		}
 	}
+	if isAddInt64Overflow(n, delta) {
+		return 0, errIntOverflow
+	}
 	n += delta
 	buf := FormatInt64ToSlice(n)
 	buf = db.encodeRealValueToDBRawValue(ts, keyInfo.OldHeader, buf)
